@@ -182,7 +182,12 @@ func VerifC14_CIDR() {
 	v4 := verifrt.Choice("family", 2) == 0
 	a := verifAddr("addr", v4)
 	plen := verifrt.Choice("prefixtextlen", 4) // 0..3 characters after the slash
-	ptext := string(verifrt.Bytes("prefixtext", plen))
+	pbytes := verifrt.Bytes("prefixtext", plen)
+	if plen > 0 {
+		// explicitly signed prefix lengths ("/+24", "/-0") are not part of the documented grammar: outside the claim
+		verifrt.Assume(pbytes[0] != '+' && pbytes[0] != '-')
+	}
+	ptext := string(pbytes)
 
 	var spec string
 	if verifrt.Symbolic() {
